@@ -71,7 +71,22 @@ mod verif_c04_shapes {
         let vr = match slot { 0 => vr.with_x_placement_device(d1), 1 => vr.with_y_placement_device(d1), 2 => vr.with_x_advance_device(d1), _ => vr.with_y_advance_device(d1) };
         let cov = CoverageTable::Format1(CoverageFormat1::new(vec![GlyphId16::new(kani::any())]));
         let sp = SinglePosFormat1::new(cov, vr);
-        let _ = roundtrip_value(&sp);
+        reset_sink();
+        let mut w = TableWriter::default();
+        sp.write_into(&mut w);
+        let linked = link();
+        assert!(linked.is_some());
+        let (bytes, n) = linked.unwrap();
+        let back = SinglePosFormat1::read(FontData::new(&bytes[..n]));
+        assert!(back.is_ok());
+        let back = back.unwrap();
+        // (a value record read back carries an explicit format, so compare field by field, not with ==)
+        let (a, b) = (&sp.value_record, &back.value_record);
+        assert!(a.format() == b.format());
+        assert!(a.x_placement == b.x_placement && a.y_placement == b.y_placement && a.x_advance == b.x_advance && a.y_advance == b.y_advance);
+        assert!(a.x_placement_device == b.x_placement_device && a.y_placement_device == b.y_placement_device
+            && a.x_advance_device == b.x_advance_device && a.y_advance_device == b.y_advance_device);
+        assert!(sp.coverage == back.coverage);
         kani::cover!(true);
     }
     //@defaults unit=U04.3 props=C04,C16 tier=thorough level=bounded bound="one shape per harness: a SinglePos value record with one device (VariationIndex) subtable on one device slot; field values symbolic" timeout=2400
